@@ -496,6 +496,10 @@ class Module(CanContainImportsDocumentable):
     def _localNameToFullName(self, name: str) -> str:
         if name in self.contents:
             o: Documentable = self.contents[name]
+            if isinstance(o, Module) and name in self._localNameToFullName_map:
+                # A name that the __init__ module of a package binds with an import
+                # ('from .run import run') hides the sub-module of the same name.
+                return self._localNameToFullName_map[name]
             return o.fullName()
         elif name in self._localNameToFullName_map:
             return self._localNameToFullName_map[name]
